@@ -2,10 +2,14 @@
 # Applies every kept seeded break to /repo itself (git apply), runs the detecting check, and undoes it
 # (git checkout -- .), as prescribed. Writes seeded/RESULTS.txt. Nothing else may use /repo meanwhile.
 cd /verif || exit 2
-out=seeded/RESULTS.txt; : > $out
+# CONFIRM_ONLY="id id ..." re-runs only those and merges their lines into the existing RESULTS.txt.
+final=seeded/RESULTS.txt; out=$final
+if [ -n "$CONFIRM_ONLY" ]; then out=/tmp/confirm.partial.txt; fi
+: > $out
 trap 'git -C /repo checkout -- . ; git -C /repo clean -fdq' EXIT
 for d in seeded/SB*-C*; do
   id=$(basename $d)
+  if [ -n "$CONFIRM_ONLY" ] && ! echo " $CONFIRM_ONLY " | grep -q " $id "; then continue; fi
   chk=$(python3 -c "import json;m=json.load(open('$d/meta.json'));print((m['detected_by'] or {}).get('check') or m['property'])")
   tier=$(python3 -c "import json;m=json.load(open('$d/meta.json'));print((m['detected_by'] or {}).get('tier') or 'quick')")
   if ! git -C /repo apply $PWD/$d/patch.diff; then echo "$id patch-does-not-apply" >> $out; continue; fi
@@ -15,4 +19,18 @@ for d in seeded/SB*-C*; do
   git -C /repo checkout -- .
 done
 git -C /repo status --short >> $out
+if [ -n "$CONFIRM_ONLY" ]; then
+  python3 - "$final" "$out" <<'PY'
+import sys,re
+final,part=sys.argv[1],sys.argv[2]
+def key(l):
+    m=re.match(r'(SB\d*)-C(\d+)-(\d+)',l); return (int(m.group(1)[2:] or 1),int(m.group(2)),int(m.group(3)))
+lines={}
+for f in (final,part):
+    for l in open(f):
+        if l.startswith('SB'): lines[l.split()[0]]=l
+open(final,'w').write(''.join(sorted(lines.values(),key=key)))
+PY
+  out=$final
+fi
 echo CONFIRM-DONE >> $out
